@@ -66,6 +66,8 @@ class FilledGrid(grid.Grid[NumX, NumY]):
 
         if isinstance(grid_obj, FilledGrid):
             vacancies = grid_obj.vacancies
+            # the parent of a filled grid is always its underlying (unfilled) grid
+            grid_obj = grid_obj.parent
         else:
             vacancies = frozenset(product(range(num_x), range(num_y)))
 
@@ -80,6 +82,8 @@ class FilledGrid(grid.Grid[NumX, NumY]):
 
         if isinstance(grid_obj, FilledGrid):
             input_vacancies = grid_obj.vacancies
+            # the parent of a filled grid is always its underlying (unfilled) grid
+            grid_obj = grid_obj.parent
         else:
             input_vacancies = frozenset()
 
